@@ -31,7 +31,8 @@ def scratch_root() -> str:
   if _scratch_root is None:
     base = os.environ.get("VERIF_SCRATCH") or tempfile.gettempdir()
     _scratch_root = tempfile.mkdtemp(prefix="ttv-", dir=base)
-    atexit.register(shutil.rmtree, _scratch_root, True)
+    if not os.environ.get("VERIF_KEEP_SCRATCH"):
+      atexit.register(shutil.rmtree, _scratch_root, True)
   return _scratch_root
 
 
@@ -83,7 +84,7 @@ _RE_COV = re.compile(r"^<(\w+) line (\d+), col (\d+) to line (\d+), col (\d+) of
 
 def run_tlc(module: str, cfg_text: str, *, workers=16, env=None, timeout=900, coverage=False,
             simulate=None, depth=None, seed=None, dump=None, extra_files=None, extra_args=(),
-            deadlock=False, name=None, java_opts=(), allow_errors=False, dfid=None) -> TlcResult:
+            deadlock=False, name=None, java_opts=(), allow_errors=False, dfid=None, _retry=False) -> TlcResult:
   """Run TLC on spec/<module>.tla with the given cfg text.
 
   simulate: None or a string like "num=1000" (passed to -simulate).
@@ -104,6 +105,9 @@ def run_tlc(module: str, cfg_text: str, *, workers=16, env=None, timeout=900, co
   with open(cfg, "w") as fh:
     fh.write(cfg_text)
   cmd = ["java", "-XX:+UseParallelGC", "-Xss16m"]
+  if not any(o.startswith("-Xmx") for o in java_opts):
+    # without a cap every JVM may grow to a quarter of the RAM; a dozen concurrent TLC runs then get OOM-killed
+    cmd += ["-Xmx4g"]
   cmd += list(java_opts)
   cmd += ["-cp", JARS, "tlc2.TLC", "-workers", str(workers), "-metadir", os.path.join(work, "meta"),
           "-noGenerateSpecTE", "-config", cfg]
@@ -140,6 +144,16 @@ def run_tlc(module: str, cfg_text: str, *, workers=16, env=None, timeout=900, co
     res.out = out if isinstance(out, str) else out.decode("utf-8", "replace")
   res.wall = time.time() - t0
   _parse_output(res)
+  if not res.timed_out and (res.rc < 0 or res.rc >= 128 or "java.lang.OutOfMemoryError" in res.out):
+    # the JVM was killed (kernel OOM killer under load, or its heap was exhausted): whatever it printed or dumped is
+    # incomplete and must never be read as a result.  One retry, then a machinery failure.
+    if not _retry:
+      shutil.rmtree(work, ignore_errors=True)
+      time.sleep(20)
+      return run_tlc(module, cfg_text, workers=workers, env=env, timeout=timeout, coverage=coverage, simulate=simulate,
+                     depth=depth, seed=seed, dump=dump, extra_files=extra_files, extra_args=extra_args, deadlock=deadlock,
+                     name=name, java_opts=java_opts, allow_errors=allow_errors, dfid=dfid, _retry=True)
+    raise MachineryError(f"TLC process for {module} died (exit status {res.rc}) twice; output tail:\n" + res.out[-1500:])
   if not allow_errors:
     if res.timed_out and simulate is None:
       raise MachineryError(f"TLC timed out after {timeout}s on {module}\n" + res.out[-2000:])
